@@ -47,8 +47,10 @@
   Standard spellings kept although the library (text2num-rs) mishandles them — findings:
     * `eine million` / `eine milliarde` (cp 2 5 / cp 3 5 = 0, the standard form): `eine` is not
       recognised (text2digits: NaN; in a sentence `eine 1000000`); `ein million` is accepted.
-    * `siebente` (cp 0 10 = 1; Duden lists `siebte` and `siebente`): not recognised (NaN).
     * not a spelling issue, seen with `conj`: `null und drei` is rewritten to `03` (the `und` is lost).
+  No longer a finding: `siebente` (cp 0 10 = 1; Duden lists `siebte` and `siebente`) was not recognised on an
+  earlier tree (NaN); it is now, with the five endings and in compounds (`siebente` ↦ `7.`,
+  `hundertsiebenter` ↦ `107.`).
 -/
 import T2N.Spec.Basic
 
